@@ -1310,6 +1310,11 @@ fn hash_bits(v: &[u64]) -> u64 {
     h.low()
 }
 
+thread_local! {
+    /// hashes of the distinct completion orders (thread id sequences) seen in the concurrent histories of this worker
+    static SEEN_ORDERS: std::cell::RefCell<std::collections::HashSet<u64>> = std::cell::RefCell::new(std::collections::HashSet::new());
+}
+
 pub fn c12_check(case: &Case, rng: &mut Rng, threads: usize, reps: usize, calls_per_thread: usize, counts: &mut std::collections::BTreeMap<String, u64>) -> Result<(), Fail> {
     let ga: MultiPolygon<f64> = to_geo(&case.a);
     let gb: MultiPolygon<f64> = to_geo(&case.b);
@@ -1448,6 +1453,15 @@ pub fn c12_check(case: &Case, rng: &mut Rng, threads: usize, reps: usize, calls_
         // offline history check: every input hash maps to exactly one output hash, and to the single-threaded one
         let hist = history.lock().unwrap();
         *counts.entry("concurrent-calls-in-history".into()).or_insert(0) += hist.len() as u64;
+        // which interleavings were actually seen: the order in which the threads' calls completed
+        let order: Vec<u8> = hist.iter().map(|h| h.0 as u8).collect();
+        let overlapped = order.windows(2).filter(|w| w[0] > w[1]).count() > 0;
+        if overlapped {
+            *counts.entry("concurrent-histories-with-interleaved-completions".into()).or_insert(0) += 1;
+        }
+        SEEN_ORDERS.with(|s| {
+            s.borrow_mut().insert(crate::util::fnv64(&order));
+        });
         for &(t, call, ih, oh) in hist.iter() {
             let op_idx = (0..4).find(|&k| in_hash ^ (OPS[k] as u64) == ih).unwrap();
             if oh != hash_bits(&reference[op_idx]) {
@@ -1625,4 +1639,5 @@ pub fn c12_worker(ctx: &mut Ctx) {
     for (k, v) in counts {
         ctx.cnt(&k, v);
     }
+    ctx.cnt("distinct_completion_orders_of_concurrent_calls_seen", SEEN_ORDERS.with(|s| s.borrow().len() as u64));
 }
